@@ -1704,6 +1704,8 @@ class P(Prop):
             return "column ids are not a permutation of 0..k-1"
         if case["hdrR"] != case["h"]:
             return "reader header differs from the writer's h"
+        if case.get("front") == "defaults" and (ids != {"E": 0, "N": 1, "U": -1, "T": -1} or case["sep"] != "," or case["h"] != 0):
+            return "writeToFile(track, path) writes its default format: the matching read is readFromCsv(path, 0, 1)"
         if case["h"] not in (0, 1):
             return "the writer's h is a flag (0 or 1)"
         if case["rfmt"] != case["pfmt"] or not fmt_is_lossless(case["pfmt"]):
@@ -2032,6 +2034,8 @@ class P(Prop):
 
     def mutate(self, case, rng):
         k = case["kind"]
+        if k == "csv" and case.get("front") == "defaults":
+            return      # the default format is what it is: E column 0, N column 1, ',', no header
         if k == "csv":
             for ids in rng.sample(self.layouts(), 6):
                 yield dict(case, ids=ids)
